@@ -276,8 +276,12 @@ def concrete_values(cwd, harnesses, gen_dir, out_dir, *, package=None, extra=(),
     Returns {full_name: vals or None}."""
     from concurrent.futures import ThreadPoolExecutor
     out = {h: None for h in harnesses}
-    with ThreadPoolExecutor(max_workers=jobs) as ex:
-        futs = {h: ex.submit(_playback_one, cwd, h, gen_dir, out_dir, package, extra, timeout_s, target_dir, i)
+    # two cargo-kani processes on one crate clobber each other's goto binaries, so concurrent extraction needs
+    # a target dir per process: affordable for slice crates (small dependency sets), not for the full crate
+    par = package is None and len(harnesses) > 1
+    with ThreadPoolExecutor(max_workers=jobs if par else 1) as ex:
+        futs = {h: ex.submit(_playback_one, cwd, h, gen_dir, out_dir, package, extra, timeout_s,
+                             (target_dir + "-pb%d" % i) if par and i > 0 else target_dir, i)
                 for i, h in enumerate(harnesses)}
     for h, f in futs.items():
         text = f.result()
